@@ -203,3 +203,144 @@ func verifControlCancelIgnored(work func() (int, error)) Observable[int] {
 	})
 }
 `
+
+// TERMINAL-RELEASE-AGREEMENT: both terminal callbacks run the same releasing closures.
+func ruleTerminalReleaseAgreement() check.Rule {
+	return check.Rule{
+		Name:        "TERMINAL-RELEASE-AGREEMENT",
+		NeedControl: true,
+		Doc:         "sibling cross-check on every observer an operator builds from literals: a local closure that releases something (closes a channel, stops a timer, unsubscribes a subscription — directly or inside a sync.Once) and is called by one terminal callback (error / complete) is called by the other one too. A stream that ends with an error otherwise leaves the hand-off channel open, the consumer loop parked and Subscribe blocked, where a completed stream is cleaned up",
+		Run: func(c *check.Ctx) {
+			m := c.M
+			n := 0
+			for _, sc := range m.SCs {
+				armed := c.Armed(sc)
+				info := sc.Pkg.TypesInfo
+				// releasing closures of this subscribe closure
+				releasing := map[types.Object]string{}
+				ast.Inspect(sc.Lit.Body, func(x ast.Node) bool {
+					as, ok := x.(*ast.AssignStmt)
+					if !ok || len(as.Lhs) != 1 || len(as.Rhs) != 1 {
+						return true
+					}
+					id, ok := as.Lhs[0].(*ast.Ident)
+					lit, ok2 := ast.Unparen(as.Rhs[0]).(*ast.FuncLit)
+					if !ok || !ok2 || lit.Type.Params.NumFields() != 0 {
+						return true
+					}
+					what := ""
+					ast.Inspect(lit.Body, func(y ast.Node) bool {
+						call, ok := y.(*ast.CallExpr)
+						if !ok {
+							return true
+						}
+						if fid, ok := ast.Unparen(call.Fun).(*ast.Ident); ok && fid.Name == "close" {
+							if _, isBuiltin := info.Uses[fid].(*types.Builtin); isBuiltin {
+								what = "closes a channel"
+							}
+						}
+						if name, isSub := m.Obj.SubscriptionMethods[model.Callee(info, call)]; isSub && name == "Unsubscribe" {
+							what = "unsubscribes"
+						}
+						if cl := model.Callee(info, call); cl != nil && cl.Pkg() != nil && cl.Pkg().Path() == "time" && cl.Name() == "Stop" {
+							what = "stops a timer"
+						}
+						return true
+					})
+					if what != "" {
+						if o := objOf(info, id); o != nil {
+							releasing[o] = what
+						}
+					}
+					return true
+				})
+				if len(releasing) == 0 {
+					continue
+				}
+				ast.Inspect(sc.Lit.Body, func(x ast.Node) bool {
+					call, ok := x.(*ast.CallExpr)
+					if !ok || len(call.Args) != 3 {
+						return true
+					}
+					cl := model.Callee(info, call)
+					if cl == nil {
+						return true
+					}
+					if _, isCtor := m.Obj.ObserverCtors[cl]; !isCtor {
+						return true
+					}
+					errLit, ok1 := ast.Unparen(call.Args[1]).(*ast.FuncLit)
+					cmpLit, ok2 := ast.Unparen(call.Args[2]).(*ast.FuncLit)
+					if !ok1 || !ok2 {
+						return true
+					}
+					calls := func(lit *ast.FuncLit) map[types.Object]bool {
+						out := map[types.Object]bool{}
+						ast.Inspect(lit.Body, func(y ast.Node) bool {
+							if c2, ok := y.(*ast.CallExpr); ok {
+								if fid, ok := ast.Unparen(c2.Fun).(*ast.Ident); ok {
+									if o := objOf(info, fid); o != nil && releasing[o] != "" {
+										out[o] = true
+									}
+								}
+							}
+							return true
+						})
+						return out
+					}
+					ce, cc := calls(errLit), calls(cmpLit)
+					for _, pair := range []struct {
+						have, other map[types.Object]bool
+						missing     *ast.FuncLit
+						name        string
+					}{{cc, ce, errLit, "error"}, {ce, cc, cmpLit, "complete"}} {
+						for o := range pair.have {
+							n++
+							key := fmt.Sprintf("%s/%s-in-%s@%s", sc, o.Name(), pair.name, posKey(m, call.Pos()))
+							if pair.other[o] {
+								if armed {
+									c.OK(key, pair.missing.Pos(), "both terminal callbacks call "+o.Name())
+								}
+							} else {
+								c.Report(armed, key, pair.missing.Pos(), "the %s callback does not call %s (which %s) although the other terminal callback of the same observer does: a stream that ends this way is not cleaned up", pair.name, o.Name(), releasing[o])
+							}
+						}
+					}
+					return true
+				})
+			}
+			c.Inc("terminal_release_calls", n)
+		},
+	}
+}
+
+func posKey(m *model.Model, p token.Pos) string {
+	pp := m.Prog.Fset.Position(p)
+	return fmt.Sprintf("L%d", pp.Line)
+}
+
+const controlsTerminalRelease = `
+func verifControlTerminalRelease[T any]() func(Observable[T]) Observable[T] {
+	return func(source Observable[T]) Observable[T] {
+		return NewObservableWithContext(func(subscriberCtx context.Context, destination Observer[T]) Teardown {
+			ch := make(chan T, 1)
+			stop := func() {
+				close(ch)
+			}
+			go func() {
+				for v := range ch {
+					destination.NextWithContext(subscriberCtx, v)
+				}
+			}()
+			sub := source.SubscribeWithContext(subscriberCtx, NewObserverWithContext(
+				func(ctx context.Context, v T) { ch <- v },
+				func(ctx context.Context, err error) { destination.ErrorWithContext(ctx, err) },
+				func(ctx context.Context) { stop(); destination.CompleteWithContext(ctx) },
+			))
+			return func() {
+				sub.Unsubscribe()
+			}
+		})
+	}
+}
+`
